@@ -117,46 +117,60 @@ Proof.
   - apply Nat.ltb_ge in EC. lia.
 Qed.
 
-(** Nesterov: at most one `continue` ever happens, because both switch the acceleration off
-    and nothing switches it on again *)
+(** Nesterov: at most one `continue` ever happens, because all three switch the acceleration off
+    and nothing switches it on again (the cut-off of commit 6bd22f2 only switches it off, too) *)
 Definition b2n (b : bool) : nat := if b then 1 else 0.
 
-Lemma nesterov_loop_bound cap ray_short omega gap cv inside : forall fuel i acc pass count c,
-  nesterov_loop fuel cap ray_short omega gap cv inside i acc pass count = Some c ->
+Lemma b2n_cut acc x : b2n (acc && x) <= b2n acc.
+Proof. destruct acc, x; simpl; lia. Qed.
+
+Lemma nesterov_loop_bound cap ray_short omega gap cv dup inside : forall fuel i acc pass count c,
+  nesterov_loop fuel cap ray_short omega gap cv dup inside i acc pass count = Some c ->
   c <= count + 2 * ((cap - i) + b2n acc).
 Proof.
-  induction fuel as [|f IH]; intros i acc pass count c H; simpl in H; [discriminate|].
+  induction fuel as [|f IH]; intros i acc pass count c H; [discriminate|].
+  cbn [nesterov_loop] in H. cbv zeta in H.
   destruct (i <? cap) eqn:EI.
   2:{ inversion H; subst. lia. }
   apply Nat.ltb_lt in EI.
   destruct (ray_short pass). { inversion H; subst. lia. }
+  pose proof (b2n_cut acc (negb (cap / 4 <=? i))) as Hc.
+  set (acc' := acc && negb (cap / 4 <=? i)) in *.
   destruct (omega pass). { inversion H; subst. lia. }
-  destruct (acc && gap pass) eqn:EA.
-  { apply andb_true_iff in EA as (-> & _). apply IH in H. simpl in *. lia. }
+  destruct (acc' && gap pass) eqn:EA.
+  { apply andb_true_iff in EA as (EA & _). rewrite EA in Hc. apply IH in H. simpl in *. lia. }
   destruct ((0 <? i) && cv pass).
-  { destruct acc.
+  { destruct acc'.
+    - apply IH in H. simpl in *. lia.
+    - inversion H; subst. lia. }
+  destruct (dup pass).
+  { destruct acc'.
     - apply IH in H. simpl in *. lia.
     - inversion H; subst. lia. }
   destruct (inside pass). { inversion H; subst. lia. }
   apply IH in H. lia.
 Qed.
 
-Theorem nesterov_bound fuel cap ray_short omega gap cv inside acc c :
-  nesterov_loop fuel cap ray_short omega gap cv inside 0 acc 0 0 = Some c -> c <= 2 * (cap + 1).
+Theorem nesterov_bound fuel cap ray_short omega gap cv dup inside acc c :
+  nesterov_loop fuel cap ray_short omega gap cv dup inside 0 acc 0 0 = Some c -> c <= 2 * (cap + 1).
 Proof. intros H. apply nesterov_loop_bound in H. destruct acc; simpl in H; lia. Qed.
 
-Theorem nesterov_terminates cap ray_short omega gap cv inside : forall fuel i acc pass count,
+Theorem nesterov_terminates cap ray_short omega gap cv dup inside : forall fuel i acc pass count,
   (cap - i) + b2n acc < fuel ->
-  nesterov_loop fuel cap ray_short omega gap cv inside i acc pass count <> None.
+  nesterov_loop fuel cap ray_short omega gap cv dup inside i acc pass count <> None.
 Proof.
-  induction fuel as [|f IH]; intros i acc pass count Hf; [lia|]. simpl.
+  induction fuel as [|f IH]; intros i acc pass count Hf; [lia|]. cbn [nesterov_loop]. cbv zeta.
   destruct (i <? cap) eqn:EI; [|discriminate]. apply Nat.ltb_lt in EI.
   destruct (ray_short pass); [discriminate|].
+  pose proof (b2n_cut acc (negb (cap / 4 <=? i))) as Hc.
+  set (acc' := acc && negb (cap / 4 <=? i)) in *.
   destruct (omega pass); [discriminate|].
-  destruct (acc && gap pass) eqn:EA.
-  { apply andb_true_iff in EA as (-> & _). apply IH. simpl in *. lia. }
+  destruct (acc' && gap pass) eqn:EA.
+  { apply andb_true_iff in EA as (EA & _). rewrite EA in Hc. apply IH. simpl in *. lia. }
   destruct ((0 <? i) && cv pass).
-  { destruct acc; [|discriminate]. apply IH. simpl in *. lia. }
+  { destruct acc'; [|discriminate]. apply IH. simpl in *. lia. }
+  destruct (dup pass).
+  { destruct acc'; [|discriminate]. apply IH. simpl in *. lia. }
   destruct (inside pass); [discriminate|].
   apply IH. lia.
 Qed.
